@@ -73,6 +73,8 @@ func constIndexTables(fn *ssa.Function) map[string]byte {
 }
 
 func runC03(c *core.Ctx, r *core.Reporter) {
+	c.BuildSSA()
+	c03tail(c, r, "C03.tail")
 	c03fname(c, r)
 	c03symbol(c, r)
 	m := buildReaderModel(c)
